@@ -131,3 +131,14 @@ Definition run_c06_em_iter (s : sx) : sx :=
       end
   | _ => bad_request
   end.
+
+(* [rebuilt nodes edges] -> nodes that get a CPD *)
+Definition run_c06_estimated_nodes (s : sx) : sx :=
+  match s with
+  | SL [sb; sn; se] =>
+      match sx_bool sb, sx_list sx_nat sn, sx_list (sx_pair sx_nat sx_nat) se with
+      | Some b, Some ns, Some es => sx_ok (of_list of_nat (estimated_nodes b ns es))
+      | _, _, _ => bad_request
+      end
+  | _ => bad_request
+  end.
